@@ -1,0 +1,331 @@
+//! Loom models used by an external verification harness.
+//! Compiled only for `cfg(all(test, loom, penguin_rs_verif))`; never part of a normal build or test run.
+//
+// SPDX-License-Identifier: Apache-2.0 OR GPL-3.0-or-later
+
+use crate::loom::{Arc, AtomicBool, AtomicU32, AtomicWaker, Ordering};
+use crate::stream::MuxStream;
+use crate::ws::Message;
+use crate::{EstablishedStreamData, FlowSlot, Multiplexor};
+use alloc::collections::BTreeSet;
+use alloc::format;
+use alloc::string::String;
+use bytes::Bytes;
+use core::task::{Context, Poll, Waker};
+use loom::sync::Notify;
+use loom::thread;
+use std::sync::Mutex as StdMutex;
+use std::sync::atomic::AtomicU64;
+use tokio::sync::mpsc;
+
+/// Executions explored by the current model (plain std atomic: not part of the modelled program).
+static ITERS: AtomicU64 = AtomicU64::new(0);
+static OUTCOMES: StdMutex<BTreeSet<String>> = StdMutex::new(BTreeSet::new());
+
+fn outcome(s: String) {
+    OUTCOMES.lock().expect("outcomes").insert(s);
+}
+
+fn report(model: &str) {
+    let o = OUTCOMES.lock().expect("outcomes");
+    std::println!(
+        "VERIF_LOOM model={model} iterations={} outcomes={} {:?}",
+        ITERS.load(core::sync::atomic::Ordering::Relaxed),
+        o.len(),
+        *o
+    );
+}
+
+/// A waker that unparks the writer thread through a loom `Notify` and counts wake-ups.
+struct NotifyWaker {
+    notify: Notify,
+    wakes: loom::sync::atomic::AtomicUsize,
+}
+
+impl std::task::Wake for NotifyWaker {
+    fn wake(self: std::sync::Arc<Self>) {
+        self.wake_by_ref();
+    }
+    fn wake_by_ref(self: &std::sync::Arc<Self>) {
+        self.wakes.fetch_add(1, Ordering::SeqCst);
+        self.notify.notify();
+    }
+}
+
+struct Parts {
+    stream: MuxStream,
+    data: EstablishedStreamData,
+    tx_msg_rx: mpsc::UnboundedReceiver<Message>,
+    _rx_frame_tx: mpsc::Sender<Bytes>,
+    _dropped_rx: mpsc::UnboundedReceiver<u32>,
+}
+
+/// Build a stream and its task-side data exactly like `Task::new_stream_shared` does.
+fn parts(credit: u32) -> Parts {
+    let (rx_frame_tx, rx_frame_rx) = mpsc::channel(4);
+    let (tx_msg_tx, tx_msg_rx) = mpsc::unbounded_channel();
+    let (dropped_flows_tx, dropped_rx) = mpsc::unbounded_channel();
+    let finish_sent = Arc::new(AtomicBool::new(false));
+    let psh_send_remaining = Arc::new(AtomicU32::new(credit));
+    let writer_waker = Arc::new(AtomicWaker::new());
+    let data = EstablishedStreamData {
+        sender: Some(rx_frame_tx.clone()),
+        finish_sent: finish_sent.clone(),
+        psh_send_remaining: psh_send_remaining.clone(),
+        writer_waker: writer_waker.clone(),
+    };
+    let stream = MuxStream {
+        rx_frame_rx,
+        flow_id: 1,
+        dest_host: Bytes::new(),
+        dest_port: 0,
+        finish_sent,
+        psh_send_remaining,
+        psh_recvd_since: 0,
+        writer_waker,
+        buf: Bytes::new(),
+        tx_msg_tx,
+        dropped_flows_tx,
+        rwnd_threshold: 4,
+    };
+    Parts {
+        stream,
+        data,
+        tx_msg_rx,
+        _rx_frame_tx: rx_frame_tx,
+        _dropped_rx: dropped_rx,
+    }
+}
+
+/// The writer: poll for permission; when told to wait, sleep until the waker fires.
+/// A lost wake-up leaves this thread blocked forever, which loom reports as a deadlock.
+/// Returns the sequence of results (`true` = permission, `false` = closed).
+fn writer_obtains(stream: &MuxStream, times: usize) -> alloc::vec::Vec<bool> {
+    let nw = std::sync::Arc::new(NotifyWaker {
+        notify: Notify::new(),
+        wakes: loom::sync::atomic::AtomicUsize::new(0),
+    });
+    let waker = Waker::from(nw.clone());
+    let cx = Context::from_waker(&waker);
+    let mut out = alloc::vec::Vec::new();
+    for _ in 0..times {
+        loop {
+            match stream.poll_obtain_write_permission(&cx) {
+                Poll::Ready(Some(())) => {
+                    out.push(true);
+                    break;
+                }
+                Poll::Ready(None) => {
+                    out.push(false);
+                    return out;
+                }
+                Poll::Pending => nw.notify.wait(),
+            }
+        }
+    }
+    out
+}
+
+fn model(f: impl Fn() + Sync + Send + 'static) {
+    ITERS.store(0, core::sync::atomic::Ordering::Relaxed);
+    OUTCOMES.lock().expect("outcomes").clear();
+    loom::model(move || {
+        ITERS.fetch_add(1, core::sync::atomic::Ordering::Relaxed);
+        f();
+    });
+}
+
+/// 1. writer waits for credit ∥ `acknowledge(1)`
+#[test]
+fn m1_writer_vs_acknowledge() {
+    model(|| {
+        let p = parts(0);
+        let Parts { stream, data, .. } = p;
+        let credit = data.psh_send_remaining.clone();
+        let w = thread::spawn(move || writer_obtains(&stream, 1));
+        data.acknowledge(1);
+        let r = w.join().expect("writer");
+        assert_eq!(r, [true], "writer must obtain the granted credit");
+        assert_eq!(credit.load(Ordering::SeqCst), 0, "credit = grants - frames sent");
+        outcome(format!("{r:?}"));
+    });
+    report("m1_writer_vs_acknowledge");
+}
+
+/// 2. writer waits for credit ∥ `disallow_write()`
+#[test]
+fn m2_writer_vs_close() {
+    model(|| {
+        let p = parts(0);
+        let Parts { stream, data, .. } = p;
+        let w = thread::spawn(move || writer_obtains(&stream, 1));
+        let old = data.disallow_write();
+        let r = w.join().expect("writer");
+        assert!(!old);
+        assert_eq!(r, [false], "a writer waiting for credit must fail once the stream is closed");
+        outcome(format!("{r:?}"));
+    });
+    report("m2_writer_vs_close");
+}
+
+/// 3. writer takes two units with one available ∥ `acknowledge(1)`: conservation of credit
+#[test]
+fn m3_two_writes_vs_acknowledge() {
+    model(|| {
+        let p = parts(1);
+        let Parts { stream, data, .. } = p;
+        let credit = data.psh_send_remaining.clone();
+        let w = thread::spawn(move || writer_obtains(&stream, 2));
+        data.acknowledge(1);
+        let r = w.join().expect("writer");
+        assert_eq!(r, [true, true]);
+        assert_eq!(credit.load(Ordering::SeqCst), 0, "1 initial + 1 granted - 2 sent");
+        outcome(format!("{r:?}"));
+    });
+    report("m3_two_writes_vs_acknowledge");
+}
+
+/// 4. writer ∥ `acknowledge(1)` ∥ `disallow_write()` on three threads
+#[test]
+fn m4_writer_vs_acknowledge_vs_close() {
+    model(|| {
+        let p = parts(0);
+        let Parts { stream, data, .. } = p;
+        let credit = data.psh_send_remaining.clone();
+        let data = Arc::new(data);
+        let d2 = data.clone();
+        let w = thread::spawn(move || writer_obtains(&stream, 1));
+        let a = thread::spawn(move || d2.acknowledge(1));
+        data.disallow_write();
+        a.join().expect("ack");
+        let r = w.join().expect("writer");
+        let left = credit.load(Ordering::SeqCst);
+        match r.as_slice() {
+            [true] => assert_eq!(left, 0, "a granted frame consumed exactly the granted unit"),
+            [false] => assert_eq!(left, 1, "a refused writer consumed nothing"),
+            other => panic!("unexpected writer result {other:?}"),
+        }
+        outcome(format!("{r:?} left={left}"));
+    });
+    report("m4_writer_vs_acknowledge_vs_close");
+}
+
+/// 5. local shutdown ∥ close by the task: exactly one of them takes the decision
+#[test]
+fn m5_shutdown_vs_close() {
+    model(|| {
+        let p = parts(1);
+        let Parts {
+            stream,
+            data,
+            mut tx_msg_rx,
+            ..
+        } = p;
+        let w = thread::spawn(move || {
+            stream.do_shutdown();
+            stream
+        });
+        let old = data.disallow_write();
+        let stream = w.join().expect("shutdown");
+        let mut finishes = 0;
+        while let Ok(m) = tx_msg_rx.try_recv() {
+            if let Message::Binary(b) = m {
+                if crate::frame::Frame::try_from(b).expect("frame").opcode() == crate::frame::OpCode::Finish {
+                    finishes += 1;
+                }
+            }
+        }
+        // `old == false` means the task decided (it will send Reset); otherwise the writer sent Finish
+        assert_eq!(finishes + usize::from(!old), 1, "exactly one side closes the flow");
+        drop(stream);
+        outcome(format!("finish_frames={finishes} task_saw_closed={old}"));
+    });
+    report("m5_shutdown_vs_close");
+}
+
+/// 6. a writer that has credit ∥ close: it either sends with a unit taken or fails, never both
+#[test]
+fn m6_writer_with_credit_vs_close() {
+    model(|| {
+        let p = parts(1);
+        let Parts { stream, data, .. } = p;
+        let credit = data.psh_send_remaining.clone();
+        let w = thread::spawn(move || writer_obtains(&stream, 2));
+        data.disallow_write();
+        let r = w.join().expect("writer");
+        let left = credit.load(Ordering::SeqCst);
+        match r.as_slice() {
+            [false] => assert_eq!(left, 1),
+            [true, false] => assert_eq!(left, 0),
+            other => panic!("unexpected writer result {other:?}"),
+        }
+        outcome(format!("{r:?} left={left}"));
+    });
+    report("m6_writer_with_credit_vs_close");
+}
+
+// ---- flow-id allocation under concurrent opens (supplements the scheduler-level checks)
+
+#[derive(Debug)]
+struct NoWs;
+impl crate::ws::WebSocket for NoWs {
+    fn poll_ready_unpin(&mut self, _: &mut Context<'_>) -> Poll<Result<(), crate::Error>> {
+        Poll::Pending
+    }
+    fn start_send_unpin(&mut self, _: Message) -> Result<(), crate::Error> {
+        Ok(())
+    }
+    fn poll_flush_unpin(&mut self, _: &mut Context<'_>) -> Poll<Result<(), crate::Error>> {
+        Poll::Pending
+    }
+    fn poll_close_unpin(&mut self, _: &mut Context<'_>) -> Poll<Result<(), crate::Error>> {
+        Poll::Pending
+    }
+    fn poll_next_unpin(&mut self, _: &mut Context<'_>) -> Poll<Option<Result<Message, crate::Error>>> {
+        Poll::Pending
+    }
+}
+
+/// Flow-id generator that repeats its first value once: two concurrent opens draw the same id.
+struct RepeatRng(u32, u32);
+impl rand::TryRng for RepeatRng {
+    type Error = core::convert::Infallible;
+    fn try_next_u32(&mut self) -> Result<u32, Self::Error> {
+        self.1 += 1;
+        Ok(if self.1 <= 2 { self.0 } else { self.0 + self.1 })
+    }
+    fn try_next_u64(&mut self) -> Result<u64, Self::Error> {
+        self.try_next_u32().map(u64::from)
+    }
+    fn try_fill_bytes(&mut self, dst: &mut [u8]) -> Result<(), Self::Error> {
+        dst.fill(0);
+        Ok(())
+    }
+}
+
+/// 7. two threads allocate a flow id at the same time while the generator collides
+#[test]
+fn m7_concurrent_flow_id_allocation() {
+    model(|| {
+        let (mux, _task) = Multiplexor::new_detailed::<NoWs, std::time::Instant>(
+            NoWs,
+            crate::config::Options::new(),
+            RepeatRng(7, 0),
+        );
+        let mux = Arc::new(mux);
+        let m2 = mux.clone();
+        let t = thread::spawn(move || {
+            let (tx, _rx) = tokio::sync::oneshot::channel();
+            m2.insert_new_flow(FlowSlot::Requested(tx))
+        });
+        let (tx, _rx) = tokio::sync::oneshot::channel();
+        let a = mux.insert_new_flow(FlowSlot::Requested(tx));
+        let b = t.join().expect("second opener");
+        assert_ne!(a, 0);
+        assert_ne!(b, 0);
+        assert_ne!(a, b, "two live flows got the same id");
+        assert_eq!(mux.flows.read().len(), 2, "a flow slot was overwritten");
+        outcome(format!("{}", u8::from(a == 7)));
+    });
+    report("m7_concurrent_flow_id_allocation");
+}
